@@ -529,7 +529,8 @@ const ARITH: &[&str] = &["range", "abs", "int", "float", "round", "odd", "even",
 fn digest(o: &Outcome<Value>) -> String {
     match o {
         Outcome::Ok(v) => {
-            let s = format!("{v:?}");
+            // canonical text (sorted map entries): HashMap order differs between processes
+            let s = gal_value(v);
             let mut h: u64 = 0xcbf29ce484222325;
             for b in s.bytes() {
                 h ^= b as u64;
@@ -646,6 +647,8 @@ fn main() {
     let mut big_range_sent = 0usize;
     let mut pending: Vec<(usize, String, serde_json::Value, bool, Vec<String>)> = Vec::new();
     let quick_target = 4000usize;
+    // C17_MODEL_CAP=n: soft cap on the thorough tier's model-side cells (strata are always sent); unset = all
+    let model_cap: Option<usize> = std::env::var("C17_MODEL_CAP").ok().and_then(|x| x.parse().ok());
 
     for (ci, c) in cells.iter().enumerate() {
         let recv = &recvs[c.ri];
@@ -697,7 +700,8 @@ fn main() {
         let s2 = format!("{key}|{varied}|{cls}");
         let fresh = strata.insert(s1) | strata.insert(s2);
         let tags = vec![format!("class:{cls}"), format!("kind:{:?}", c.bk)];
-        if thorough || fresh {
+        let under_cap = model_cap.map_or(true, |cap| sink.count < cap);
+        if (thorough && under_cap) || fresh {
             per_builtin.entry(key).or_default()[2] += 1;
             sink.push(cell_gallina(c, recv, &o), cell_desc(c, recv, &o), nontrivial, None, &tags.iter().map(|s| s.as_str()).collect::<Vec<_>>());
         } else {
